@@ -65,7 +65,7 @@ def be_facts(content, off, w):
 def as_arr(v):
     """python bytes or SBytes -> (z3 array, length)"""
     b = as_sbytes(v)
-    return b.arr, Z(b.length)
+    return b.base_arr(), Z(b.length)
 
 
 def forall_range(lo, hi, body, name="k"):
@@ -214,3 +214,33 @@ def contract_call(spec, bind, result=None, post_key="file", disk_key="home"):
             return out.value
         raise PyRaise(out.exc)
     return h
+
+
+class StubCls(object):
+    """class of contract-supplied stub collaborators"""
+
+
+def stub(name, **methods):
+    """SObj whose attributes are model functions: stub(name, foo=lambda I, args, kwargs: ...)"""
+    from pyvc.interp import ModelFn
+    o = SObj(StubCls, {}, name=name)
+    o.calls = []
+    for k, fn in methods.items():
+        if callable(fn):
+            def mk(k, fn):
+                def h(I, a, kw):
+                    o.calls.append((k, tuple(a)))
+                    return fn(I, a, kw)
+                return h
+            o.fields[k] = ModelFn("%s.%s" % (name, k), mk(k, fn))
+        else:
+            o.fields[k] = fn
+    return o
+
+
+def noop(I, a, kw):
+    return None
+
+
+def same_file(c0, n0, c1, n1):
+    return z3.And(n1 == n0, forall_range(0, n0, lambda k: z3.Select(c1, k) == z3.Select(c0, k)))
